@@ -376,6 +376,9 @@ func runC08(c *Ctx) {
 				ok, why = false, "dimensions are not taken from the parameters"
 			} else {
 				wi, hi = wT.N, hT.N
+				if wi == hi {
+					ok, why = false, "width and height are both taken from parameter "+fi.SSA.Params[wi].Name()+": the array is square whatever the second dimension says"
+				}
 				pw := fi.SSA.Params[wi].Name()
 				ph := fi.SSA.Params[hi].Name()
 				if pw != "width" || ph != "height" {
@@ -1229,6 +1232,61 @@ func c08Extra(x *c08, funcs []*FuncInfo, allPaths map[*FuncInfo][]*Path) {
 				}
 				if !good {
 					ok, why = false, "a jagged row is not copied into the row of the same index (below height): "+e.String()
+				}
+				// every row from the first: when the row index is driven by a loop counter, the counter starts at row 0,
+				// goes up by one, and the row it reads exists (the range form has all three by construction)
+				if good {
+					var si *Term
+					if src.Op == "load" && src.Args[0].Op == "iaddr" {
+						si = src.Args[0].Args[1]
+					} else if src.Op == "index" {
+						si = src.Args[1]
+					}
+					for _, li := range findLoops(ps) {
+						for phi, lv := range li.LV {
+							if si == nil || !si.ContainsKey(lv.Key()) || ToPoly(si).Coef(lv.Key()) != 1 {
+								continue
+							}
+							in := li.Init[phi]
+							if in == nil {
+								ok, why = false, "cannot read the first row index of the copy loop"
+								continue
+							}
+							first := ToPoly(si).Add(ToPoly(lv), -1).Add(ToPoly(in), 1)
+							if k, isC := first.IsConst(); !isC || k != 0 {
+								ok, why = false, "the copy loop does not start at row 0: the first row copied is "+first.String()
+							}
+							for _, q := range li.Back {
+								if nx := q.Next[phi]; nx == nil || !ToPoly(nx).Add(ToPoly(lv), -1).Equal(polyConst(1)) {
+									ok, why = false, "the copy loop does not advance by one row"
+								}
+							}
+							// ... and the loop ends only when the rows of the array or of the input are used up
+							if !strings.Contains(lv.String(), "rangeindex") && ToPoly(si).Equal(ToPoly(lv)) {
+								lenJ := ToPoly(&Term{Op: "builtin", Sym: "len", Args: []*Term{paramOf(fi, 2)}})
+								hgt := ToPoly(paramOf(fi, 1))
+								for _, q := range li.Exit {
+									bq := x.boundsOf(q, mk.Res)
+									if !(bq.le(hgt, ToPoly(lv), 2) || bq.le(lenJ, ToPoly(lv), 2)) {
+										ok, why = false, "the copy loop can end ("+q.CondString()+") before the rows of the array or of the input are used up"
+									}
+								}
+							}
+							// a hand-written counter must be tested against the number of input rows before it indexes them
+							if _, isRange := phi.Comment, false; !isRange && p.End == EndLoopBack && !strings.Contains(lv.String(), "rangeindex") {
+								lenJ := ToPoly(&Term{Op: "builtin", Sym: "len", Args: []*Term{paramOf(fi, 2)}})
+								inRange := x.boundsOf(p, mk.Res).lt(ToPoly(si), lenJ, 2)
+								for _, cd := range p.Conds {
+									if pl, kind, isInt := cd.Rel().IntNorm(); isInt && kind == ">" && pl.Equal(lenJ.Add(ToPoly(si), -1)) {
+										inRange = true
+									}
+								}
+								if !inRange {
+									ok, why = false, "the input row "+si.String()+" is read without having been found below len(jagged)"
+								}
+							}
+						}
+					}
 				}
 			}
 		}
